@@ -209,8 +209,10 @@ impl<F: FixedChannelRegion> RegionHandler for FixedChannelPlan<F> {
                 // or ChannelMask in the LinkADRReq in Data Frame.
                 // If it has not been reset yet, we continue to use the bias for the data frames.
                 // We hope to acquire ChannelMask via LinkADRReq.
-                if self.join_channels.has_bias_and_not_exhausted() {
-                    let channel = self.join_channels.get_next_channel(rng);
+                if self.join_channels.has_bias_and_not_exhausted()
+                    && let channel = self.join_channels.get_next_channel(rng)
+                    && self.channel_mask.is_enabled(channel.into()).unwrap_or(false)
+                {
                     let dr = if channel < 64 {
                         DR::_0
                     } else {
